@@ -55,10 +55,15 @@ def next_token(text, prev=None):
     '}'
     """
     while text.hasNext():
+        start = text.position
         for name, f in tokenizers:
             current_token = f(text, prev=prev)
             if current_token is not None:
                 return current_token
+            if text.position != start:
+                # ignored characters were skipped: start over at the new
+                # position (possibly the end of the input)
+                break
 
 
 @to_buffer()
@@ -232,7 +237,8 @@ def tokenize_ignore(text, prev=None):
     >>> print(*tokenize(categorize('\x00hello')))
     hello
     """
-    while text.peek().category in (CC.Ignored, CC.Invalid):
+    while text.hasNext() and \
+            text.peek().category in (CC.Ignored, CC.Invalid):
         text.forward(1)
 
 
